@@ -172,12 +172,15 @@ def step (s : DState) (toks : List String) : DState × String :=
   match toks with
   | "case" :: _ => ({}, "ok")
   | ["td", l] => ({ s with bundle := L l }, "ok")
-  | ["custom", provs, multi] => ({ s with custom := { providers := L provs, multi := tokBool multi } }, "ok")
+  | ["custom", provs, multi] =>
+    let names := (L provs).map fun n => if hasPrefix "http:".toList n then n.drop 5 else n
+    let https := ((L provs).filter fun n => hasPrefix "http:".toList n).map (·.drop 5)
+    ({ s with custom := { providers := names, multi := tokBool multi, httpProviders := https } }, "ok")
   | ["wl", root, ns, labels] =>
     ({ s with wl := { rootNs := (dec root).toList, ns := (dec ns).toList, labels := labelsOf labels } }, "ok")
   | "pol" :: a :: ns :: name :: dry :: prov :: rest =>
     ({ s with policies := s.policies ++ [{ ns := (dec ns).toList, name := (dec name).toList, action := actionOf a,
-                                           dryRun := tokBool dry, provider := (dec prov).toList,
+                                           dryRun := isDryRun (if dry == "0" then none else some (dec dry).toList), provider := (dec prov).toList,
                                            selector := labelsOf (rest.headD "-"), rules := [] }] }, "ok")
   | ["rule"] =>
     ({ s with policies := modifyLast (fun p => { p with rules := p.rules ++ [{}] }) s.policies }, "ok")
@@ -191,12 +194,13 @@ def step (s : DState) (toks : List String) : DState × String :=
     let c : Condition := ⟨(dec key).toList, L vs, L nvs⟩
     ({ s with policies := modifyLast (fun p => { p with rules := modifyLast (fun r => { r with whens := r.whens ++ [c] }) p.rules }) s.policies }, "ok")
   | ["build", kind, auth] =>
-    let o : BuildOpts := { bundle := s.bundle, forTCP := kind == "tcp", useAuth := tokBool auth }
+    let o : BuildOpts := { bundle := s.bundle, forTCP := kind != "http", useAuth := tokBool auth,
+                           tcpRulesAsHTTP := kind == "tcphttp" }
     let fs := compileAll s.wl o s.custom s.policies
     ({ s with opts := o, filters := fs }, showFilters fs)
   | "req" :: attrs =>
     let r := parseReq attrs
-    (s, s!"{decTok (evalGs s.filters r)} {decTok (specDecisionAll s.wl s.bundle s.custom s.policies r)}")
+    (s, s!"{decTok (evalGs s.filters r)} {decTok (specDecisionOn s.wl s.bundle s.custom s.opts.forTCP s.policies r)}")
   | _ => (s, "bad-op")
 
 /-- Stream `hyps` (not compared with the implementation): for every `req` line, whether the
@@ -211,7 +215,7 @@ def stepHyps (s : DState) (toks : List String) : DState × String :=
     let mig := sel.all fun p => p.rules.all fun ru => migrationOKB s.opts p.ns ru
     let scope := sel.all fun p => p.rules.all fun ru => ruleInScope s.opts r p.ns ru
     (s, s!"hyps={boolTok (hypsAllB s.opts sel r)} tr={boolTok (translatableB s.opts sel)} " ++
-        s!"compiled={decTok (evalGs s.filters r)} spec={decTok (specDecisionAll s.wl s.bundle s.custom s.policies r)} " ++
+        s!"compiled={decTok (evalGs s.filters r)} spec={decTok (specDecisionOn s.wl s.bundle s.custom s.opts.forTCP s.policies r)} " ++
         s!"mig={boolTok mig} scope={boolTok scope} peer={boolTok r.peerOK} names={boolTok (entriesDistinctB s.opts sel)}")
   | "build" :: _ => let (s', _) := step s toks; (s', "built")
   | _ => step s toks
